@@ -50,6 +50,7 @@ func (a *ake) wipe(wipeKeys bool) {
 
 	wipeBytes(a.r[:])
 	wipeBytes(a.ssid[:])
+	a.sentRevealSig = false
 
 	a.wipeGX()
 	a.revealKey.unlock()
